@@ -13,6 +13,7 @@ import (
 	"flag"
 	"fmt"
 	"os"
+	"strings"
 	"time"
 
 	incr "github.com/wcharczuk/go-incr"
@@ -639,6 +640,7 @@ func main() {
 		rounds  = flag.Int("rounds", 40, "graphs per scenario and parallelism")
 		jsonOut = flag.String("json", "", "report file")
 		claim   = flag.String("claim", "C04", "property the violations are reported for")
+		only    = flag.String("only", "", "run only the scenarios whose name contains this text")
 	)
 	flag.Parse()
 	scenarios := []scenario{
@@ -655,6 +657,9 @@ func main() {
 	rep := hx.NewReport("parscen", *seed)
 	rng := hx.NewRand(*seed)
 	for _, sc := range scenarios {
+		if *only != "" && !strings.Contains(sc.name, *only) {
+			continue
+		}
 		for _, par := range []int{0, 1, 2, 4, 16} {
 			passes, problem := sc.run(par, *rounds, rng.Fork())
 			rep.Evaluations += passes
